@@ -524,11 +524,11 @@ def mapping_job(label, sb, src, tag, *, same_names=False, log=True, obsm_key=Non
         cfg['precomputed_stats']['path'] = str(bad)
     job = {'label': label, 'stage': 'mapping', 'args': {'config': cfg}, 'fault': fault, 'pre': pre,
            'roots': roots_of(sb)}
+    with_process_dirs(job, sb)
     if no_scratch is not None:
         # tmp_dir=None (the schema allows it): temporary files in the system temporary directory, the result
         # buffer in extended_result_dir: the output directory ('out'), another directory ('tmp'), or (None) the
         # system temporary directory as well
-        with_process_dirs(job, sb)
         cfg['tmp_dir'] = None
         cfg['extended_result_dir'] = {'out': str(sb / 'out'), 'tmp': str(sb / 'tmp'), 'none': None}[no_scratch]
     return job
@@ -889,7 +889,7 @@ def stage_jobs(sb, src, info, tag, params, pre=None):
             f.create_dataset('metadata', data=json.dumps({'precomputed_path': str(ind / 'stats.h5')}).encode('utf-8'))
     roots = roots_of(sb)
     tmp = str(sb / 'tmp')
-    return [
+    jobs = [
         {'label': f'stats-{tag}', 'stage': 'stats', 'roots': roots, 'pre': pre,
          'args': {'h5ad': str(ind / 'ref.h5ad'), 'levels': info['levels'], 'out': str(sb / 'out' / 'stats_out.h5'),
                   'rows_at_a_time': params['rows'], 'tmp_dir': tmp, 'n_processors': params['np']}},
@@ -901,6 +901,9 @@ def stage_jobs(sb, src, info, tag, params, pre=None):
                   'n_per_utility': params['npu'], 'n_processors': params['np'], 'behemoth_cutoff': params['behemoth'],
                   'tmp_dir': tmp}},
     ]
+    # (not given a system temporary / working directory of their own: these stages use multiprocessing.Manager,
+    # whose pymp-* directory in the system temporary directory lives until the interpreter exits)
+    return jobs
 
 
 def history_stages(ctx, k):
@@ -945,10 +948,13 @@ def run(ctx):
         'HDF5 H5Fcreate probes an existing file with open(O_RDWR) before truncating it: the probe is dropped when the next '
         'operation of that process on that path is the truncating create (fstrace.to_ops)',
         'gc.collect() runs before a run counts as returned (destructor-time cleanup of FileTracker / AnnDataRowIterator)',
-        'mapping runs are made with a scratch directory and without one (tmp_dir=None: the run is then given a system '
-        'temporary directory (TMPDIR) and a working directory inside the sandbox; the system temporary directory is the '
-        'scratch root of the model); concurrent runs use distinct output file names and a private copy of the query when '
-        'obsm_key is set',
+        'every mapping run and every direct call of the type-assignment stage is started with a system temporary directory '
+        '(TMPDIR) and a working directory inside the sandbox, which are traced and listed like the other directories; '
+        'mapping runs are made with a scratch directory and without one (tmp_dir=None: the system temporary directory is '
+        'then the scratch root of the model); concurrent runs use distinct output file names and a private copy of the '
+        'query when obsm_key is set',
+        'the three preparatory stages (statistics, reference markers, query markers) are NOT observed in the system '
+        'temporary directory: they use multiprocessing.Manager, whose pymp-* directory there lives until the interpreter exits',
         'the model has ONE scratch root: a run that was given a second directory for temporary data (extended_result_dir of '
         'a mapping run without tmp_dir; tmp_dir -- or, without one, the system temporary directory -- of a direct call of '
         'the type-assignment stage when it differs from results_output_path) is encoded with the entries of that directory as '
